@@ -88,6 +88,73 @@ def check_py_val_case(ctx: Ctx, env, rule: str = "R4.consumer-case-insensitive")
     return n_cons
 
 
+def check_backend_case(ctx: Ctx, env, kinds, rule: str = "R4.consumer-case-insensitive", only=None) -> int:
+    """Back ends that read the raw text of a literal whose spelling can vary in case must normalise it (or hand it to a
+    case-insensitive consumer) before deciding on it or quoting it."""
+    H = heval.get(env)
+    n_cons = 0
+    for vcls in H.visitors():
+        if only is not None and not only(vcls):
+            continue
+        vs = H.short(vcls)
+        is_sql = vcls in H.sql_visitors()
+        is_roundtrip = "roundtrip" in vcls
+        A = SqlAnalysis(env, vcls) if is_sql else None
+        for kind in kinds:
+            paths = H.eval_visit(vcls, kind) or []
+            for p in paths:
+                handler_q = p.entry.get("handler", "?")
+                owner_short = ".".join(handler_q.rsplit(".", 2)[-2:])
+                where = p.entry.get("where", "")
+                wit = {"Boolean": "flag eq TRUE", "DateTime": "d eq 2020-01-01t10:00:00z", "Float": "x eq 1E3"}[kind]
+                for k, v in p.conds:
+                    if "field(node,'val')" in k and ("==" in k or k.startswith("in(")):
+                        n_cons += 1
+                        ctx.check(any(f"|{t}" in k for t in CASE_TRANSFORMS), rule, f"{owner_short}|compare",
+                                  f"[{vs}] decides on `{k}`: a case-sensitive test on text that keeps the user's case ({CASE_VARIANT_KINDS[kind]})", where, wit)
+                if p.outcome != "return":
+                    continue
+                if is_roundtrip:
+                    n_cons += 1
+                    continue  # raw re-emission, re-lexed under re.I
+                if is_sql and A is not None:
+                    items = A._items(p.value)
+                    if items is None:
+                        continue
+                    st = sqltok.analyse(sqltok.tokenize(items))
+                    for tok in st.toks:
+                        pieces = []
+                        if tok.kind == "raw":
+                            pieces = [(tok.value, False)]
+                        elif tok.kind == "string":
+                            pieces = [(c, True) for c in (tok.value or []) if not isinstance(c, str)]
+                        for piece, quoted in pieces:
+                            o = raw_origin(piece[1])
+                            if o is None or kind not in o.kinds or o.attr != "val":
+                                continue
+                            n_cons += 1
+                            tr = tuple(o.extra_transforms) + tuple(piece[2])
+                            normalised_at = next((i for i, t in enumerate(tr) if t and t[0] in CASE_TRANSFORMS), None)
+                            cased_replace = [t for i, t in enumerate(tr) if t and t[0] == "replace" and isinstance(t[1], str) and t[1].lower() != t[1].upper()
+                                             and (normalised_at is None or i < normalised_at)]
+                            if cased_replace:
+                                ctx.fail(rule, f"{owner_short}|replace",
+                                         f"[{vs}] applies {cased_replace[0][0]}({cased_replace[0][1]!r}, {cased_replace[0][2]!r}) to text whose case the user chose: "
+                                         f"the lower-case spelling is not replaced", where, wit)
+                            elif quoted and normalised_at is None:
+                                ctx.fail(rule, f"{owner_short}|quoted",
+                                         f"[{vs}] hands the text to the SQL engine inside a quoted string without normalising its case "
+                                         f"({CASE_VARIANT_KINDS[kind]}): engines parse the quoted form case-sensitively", where, wit)
+                            else:
+                                ctx.ok(rule, f"{owner_short}|{kind}", "case-insensitive SQL token class or normalised")
+                else:
+                    t = repr(p.value)
+                    n_cons += 1
+                    if "field(node,'val')" in t and "py_val" not in t:
+                        ctx.fail(rule, f"{owner_short}|raw", f"[{vs}] passes the raw text on ({T.show(T.norm(p.value), 80)})", where, wit)
+    return n_cons
+
+
 def run(ctx: Ctx, env):
     g = env.grammar
     gm = grammar_module(env)
@@ -205,63 +272,7 @@ def run(ctx: Ctx, env):
                     lexer_normalises.add(v.cls)
     kinds = [k for k in CASE_VARIANT_KINDS if k not in lexer_normalises]
     # (b) back ends
-    for vcls in H.visitors():
-        vs = H.short(vcls)
-        is_sql = vcls in H.sql_visitors()
-        is_roundtrip = "roundtrip" in vcls
-        A = SqlAnalysis(env, vcls) if is_sql else None
-        for kind in kinds:
-            paths = H.eval_visit(vcls, kind) or []
-            for p in paths:
-                handler_q = p.entry.get("handler", "?")
-                owner_short = ".".join(handler_q.rsplit(".", 2)[-2:])
-                where = p.entry.get("where", "")
-                wit = {"Boolean": "flag eq TRUE", "DateTime": "d eq 2020-01-01t10:00:00z", "Float": "x eq 1E3"}[kind]
-                for k, v in p.conds:
-                    if "field(node,'val')" in k and ("==" in k or k.startswith("in(")):
-                        n_cons += 1
-                        ctx.check(any(f"|{t}" in k for t in CASE_TRANSFORMS), "R4.consumer-case-insensitive", f"{owner_short}|compare",
-                                  f"[{vs}] decides on `{k}`: a case-sensitive test on text that keeps the user's case ({CASE_VARIANT_KINDS[kind]})", where, wit)
-                if p.outcome != "return":
-                    continue
-                if is_roundtrip:
-                    n_cons += 1
-                    continue  # raw re-emission, re-lexed under re.I
-                if is_sql and A is not None:
-                    items = A._items(p.value)
-                    if items is None:
-                        continue
-                    st = sqltok.analyse(sqltok.tokenize(items))
-                    for tok in st.toks:
-                        pieces = []
-                        if tok.kind == "raw":
-                            pieces = [(tok.value, False)]
-                        elif tok.kind == "string":
-                            pieces = [(c, True) for c in (tok.value or []) if not isinstance(c, str)]
-                        for piece, quoted in pieces:
-                            o = raw_origin(piece[1])
-                            if o is None or kind not in o.kinds or o.attr != "val":
-                                continue
-                            n_cons += 1
-                            tr = tuple(o.extra_transforms) + tuple(piece[2])
-                            normalised_at = next((i for i, t in enumerate(tr) if t and t[0] in CASE_TRANSFORMS), None)
-                            cased_replace = [t for i, t in enumerate(tr) if t and t[0] == "replace" and isinstance(t[1], str) and t[1].lower() != t[1].upper()
-                                             and (normalised_at is None or i < normalised_at)]
-                            if cased_replace:
-                                ctx.fail("R4.consumer-case-insensitive", f"{owner_short}|replace",
-                                         f"[{vs}] applies {cased_replace[0][0]}({cased_replace[0][1]!r}, {cased_replace[0][2]!r}) to text whose case the user chose: "
-                                         f"the lower-case spelling is not replaced", where, wit)
-                            elif quoted and normalised_at is None:
-                                ctx.fail("R4.consumer-case-insensitive", f"{owner_short}|quoted",
-                                         f"[{vs}] hands the text to the SQL engine inside a quoted string without normalising its case "
-                                         f"({CASE_VARIANT_KINDS[kind]}): engines parse the quoted form case-sensitively", where, wit)
-                            else:
-                                ctx.ok("R4.consumer-case-insensitive", f"{owner_short}|{kind}", "case-insensitive SQL token class or normalised")
-                else:
-                    t = repr(p.value)
-                    n_cons += 1
-                    if "field(node,'val')" in t and "py_val" not in t:
-                        ctx.fail("R4.consumer-case-insensitive", f"{owner_short}|raw", f"[{vs}] passes the raw text on ({T.show(T.norm(p.value), 80)})", where, wit)
+    n_cons += check_backend_case(ctx, env, kinds)
     ctx.floor("consumers of case-variant text", n_cons, 12)
     ctx.assume("dateutil's isoparse treats t/z like T/Z (trusted); float() and the SQL numeric grammar accept e and E")
 
